@@ -430,3 +430,24 @@ impl<'a, F: IVP> SolOut for DefaultSolOut<'a, F> {
         ControlFlag::Continue
     }
 }
+
+#[cfg(feature = "verif-hooks")]
+impl<'a, F: IVP> DefaultSolOut<'a, F> {
+    /// Verification hook: pre-reserve the output buffers so pushes never reallocate.
+    pub fn verif_reserve(&mut self, cap: usize) {
+        self.t.reserve(cap);
+        self.y.reserve(cap);
+        self.dense_segs.reserve(cap);
+        for v in self.t_events.iter_mut() {
+            v.reserve(cap);
+        }
+        for v in self.y_events.iter_mut() {
+            v.reserve(cap);
+        }
+    }
+
+    /// Verification hook: read-only view of the bookkeeping state.
+    pub fn verif_state(&self) -> (usize, bool, usize) {
+        (self.next_idx, self.first_output_done, self.t.len())
+    }
+}
